@@ -43,6 +43,9 @@ def build_inputs(body):
             alts.append([("sign", s, None, isref) for s in (-1, 0, 1)])
         elif base == "bool":
             alts.append([("bool", bv, None, isref) for bv in (False, True)])
+        elif base in ("T", "U") and len(base) == 1:
+            # generic numeric parameter (e.g. powsign's exponent): an unsigned magnitude
+            alts.append([("uint", "u64", "U" + sym, isref)])
         else:
             raise Unsupported("parameter %d of type %s" % (i, ty))
     return itertools.product(*alts)
@@ -523,3 +526,344 @@ def check_division_methods(ctx, res):
         13,
         "R5: div_rem, div_floor, mod_floor, div_mod_floor, div_ceil, div_euclid, rem_euclid, div_rem_euclid and the checked variants of BigInt equal the textbook tables in (sa, sb, Q, R, [R=0]); zero divisor -> panic / None",
     )
+
+
+# ------------------------------------------------------------------------------------------
+# sign algebra, helpers, predicates (C19) and friends
+
+from .r5models import opaque_sym
+
+
+def o_sign_neg(c):
+    return ("sign", -c.combo[0][1])
+
+
+def o_sign_mul(c):
+    return ("sign", c.combo[0][1] * c.combo[1][1])
+
+
+def o_sign_of(c):
+    return ("sign", c.sm(1)[0])
+
+
+def o_magnitude(c):
+    return c.sm(1)[1]
+
+
+def o_into_parts(c):
+    s, A = c.sm(1)
+    return (("sign", s), A)
+
+
+def o_is_zero(c):
+    s, A = c.sm(1)
+    kz = c.st.known_zero(A)
+    if kz is None:
+        raise NeedCase(A)
+    return ("bool", kz)
+
+
+def o_set_zero(c):
+    return Poly()
+
+
+def o_set_one(c):
+    return Poly.const(1)
+
+
+def o_zero(c):
+    return Poly()
+
+
+def o_one(c):
+    return Poly.const(1)
+
+
+def order_of(c, i, j):
+    sa, A = c.sm(i)
+    sb, B = c.sm(j)
+    if sa != sb:
+        return -1 if sa < sb else 1
+    if sa == 0:
+        return 0
+    d = A - B
+    if d.is_const():
+        o = (d.const_value() > 0) - (d.const_value() < 0)
+    elif (repr(A), repr(B)) in c.st.lt:
+        o = -1
+    elif (repr(B), repr(A)) in c.st.lt:
+        o = 1
+    else:
+        raise Mismatch("the order of the magnitudes was never established on this path")
+    return o if sa > 0 else -o
+
+
+def o_cmp(c):
+    return ("ord", order_of(c, 1, 2))
+
+
+def o_eq(c):
+    sa, A = c.sm(1)
+    sb, B = c.sm(2)
+    if sa != sb:
+        return ("bool", False)
+    return ("bool", order_of(c, 1, 2) == 0)
+
+
+def o_abs_sub(c):
+    o = order_of(c, 1, 2)
+    if o <= 0:
+        return Poly()
+    return c.init_val(1) - c.init_val(2)
+
+
+def o_to_biguint(c):
+    s, A = c.sm(1)
+    if s < 0:
+        return ("none",)
+    return ("some", A)
+
+
+def o_from_biguint_value(c):
+    return c.init_val(1)
+
+
+def o_some_value(c):
+    return ("some", c.init_val(1))
+
+
+def o_powsign(c):
+    s = c.combo[0][1]
+    E = c.init_val(2)
+    kz = c.st.known_zero(E)
+    if kz is None:
+        raise NeedCase(E)
+    if kz:
+        return ("sign", 1)
+    if s >= 0:
+        return ("sign", s)
+    key = "is_odd(%r)" % (E,)
+    if E.is_const():
+        odd = E.const_value() % 2 == 1
+    elif key in c.st.bools:
+        odd = c.st.bools[key]
+    else:
+        raise Mismatch("exponent parity never tested for a negative base")
+    return ("sign", -1 if odd else 1)
+
+
+def o_pow(c):
+    s, A = c.sm(1)
+    E = c.init_val(2)
+    kz = c.st.known_zero(E)
+    if kz is None:
+        raise NeedCase(E)
+    mag = opaque_sym("pow", A, E).subst(c.st.subst)
+    if kz:
+        ps = 1
+    elif s >= 0:
+        ps = s
+    else:
+        key = "is_odd(%r)" % (E,)
+        if key not in c.st.bools:
+            raise Mismatch("exponent parity never tested for a negative base")
+        ps = -1 if c.st.bools[key] else 1
+    return mag * ps
+
+
+def o_root(name, deg_arg):
+    def f(c):
+        s, A = c.sm(1)
+        if deg_arg:
+            n = c.init_val(2)
+            if s < 0:
+                key = "is_odd(%r)" % (n,)
+                if key not in c.st.bools:
+                    raise Mismatch("degree parity never tested for a negative radicand")
+                if not c.st.bools[key]:
+                    return "panic"
+            return opaque_sym(name, A, n).subst(c.st.subst) * s
+        if name == "sqrt" and s < 0:
+            return "panic"
+        return opaque_sym(name, A).subst(c.st.subst) * s
+
+    return f
+
+
+def o_gcdlike(name):
+    def f(c):
+        return opaque_sym(name, c.sm(1)[1], c.sm(2)[1]).subst(c.st.subst)
+
+    return f
+
+
+def o_is_multiple_of(c):
+    sa, A = c.sm(1)
+    sb, B = c.sm(2)
+    kz = c.st.known_zero(B)
+    if kz is None:
+        raise NeedCase(B)
+    if kz:
+        ka = c.st.known_zero(A)
+        if ka is None:
+            raise NeedCase(A)
+        return ("bool", ka)
+    d = find_div(c.st, A, B)
+    if d is None:
+        raise Mismatch("no remainder computed")
+    return ("bool", rzero(c.st, d[1]))
+
+
+def o_next_multiple_of(c):
+    f = _floor(c)
+    if f == "panic":
+        return "panic"
+    m = f[1]
+    kz = c.st.known_zero(m) if not m.is_zero() else True
+    if m.is_zero():
+        return c.init_val(1)
+    # m is +-R or +-(B-R): non-zero on this branch unless R == 0 (then _floor returned 0)
+    return c.init_val(1) + (c.init_val(2) - m)
+
+
+def o_prev_multiple_of(c):
+    f = _floor(c)
+    if f == "panic":
+        return "panic"
+    return c.init_val(1) - f[1]
+
+
+def o_modpow(c):
+    sx, X = c.sm(1)
+    se, E = c.sm(2)
+    sm_, M = c.sm(3)
+    if se < 0 or sm_ == 0:
+        return "panic"
+    rho = opaque_sym("modpow", X, E, M).subst(c.st.subst)
+    kz = c.st.known_zero(rho)
+    if kz is None:
+        raise NeedCase(rho)
+    if kz:
+        return Poly()
+    neg = False
+    if sx < 0:
+        if E.is_zero():
+            neg = False
+        else:
+            key = "is_odd(%r)" % (E,)
+            if key not in c.st.bools:
+                raise Mismatch("exponent parity never tested for a negative base")
+            neg = c.st.bools[key]
+    if sm_ > 0:
+        return (M - rho) if neg else rho
+    return -rho if neg else -(M - rho)
+
+
+def o_modinv(c):
+    sx, X = c.sm(1)
+    sm_, M = c.sm(2)
+    rho0 = opaque_sym("modinv", X, M)
+    key = "some:" + repr(rho0)
+    rho = rho0.subst(c.st.subst)
+    if key not in c.st.bools:
+        raise Mismatch("the unsigned inverse was never computed")
+    if not c.st.bools[key]:
+        return ("none",)
+    kz = c.st.known_zero(rho)
+    if kz is None:
+        raise NeedCase(rho)
+    if kz:
+        return ("some", Poly())
+    neg = sx < 0
+    if sm_ > 0:
+        return ("some", (M - rho) if neg else rho)
+    return ("some", -rho if neg else -(M - rho))
+
+
+def helper_targets(facts):
+    out = []
+
+    def add(bodies, oracle, what, result_of="return"):
+        for b in bodies:
+            out.append((b, oracle, result_of, what))
+
+    F = facts.find
+    add(F(trait="core::ops::Neg", self_ty="bigint::Sign", name="neg"), o_sign_neg, "Neg for Sign = -s")
+    add(F(trait="core::ops::Mul", self_ty="bigint::Sign", name="mul"), o_sign_mul, "Mul<Sign> = rule of signs")
+    add(F(trait="core::ops::Neg", self_ty="bigint::BigInt", name="neg"), o_neg, "-a")
+    add(F(trait="core::ops::Neg", self_ty="&bigint::BigInt", name="neg"), o_neg, "-a")
+    add(F(trait="core::ops::Not", self_ty="bigint::BigInt", name="not"), o_not, "!a = -a - 1")
+    add(F(trait="core::ops::Not", self_ty="&bigint::BigInt", name="not"), o_not, "!a = -a - 1")
+    add(F(trait="num_traits::Signed", self_ty="bigint::BigInt", name="abs"), o_abs, "|a|")
+    add(F(trait="num_traits::Signed", self_ty="bigint::BigInt", name="signum"), o_signum, "signum")
+    add(F(trait="num_traits::Signed", self_ty="bigint::BigInt", name="is_positive"), o_is_positive, "a > 0")
+    add(F(trait="num_traits::Signed", self_ty="bigint::BigInt", name="is_negative"), o_is_negative, "a < 0")
+    add(F(trait="num_traits::Signed", self_ty="bigint::BigInt", name="abs_sub"), o_abs_sub, "max(a-b,0)")
+    add(F(suffix="bigint::BigInt::sign"), o_sign_of, "sign(a)")
+    add(F(suffix="bigint::BigInt::magnitude"), o_magnitude, "|a|")
+    add(F(suffix="bigint::BigInt::into_parts"), o_into_parts, "(sign, |a|)")
+    add(F(trait="num_traits::Zero", self_ty="bigint::BigInt", name="is_zero"), o_is_zero, "a == 0")
+    add(F(trait="num_traits::Zero", self_ty="bigint::BigInt", name="zero"), o_zero, "0")
+    add(F(trait="num_traits::One", self_ty="bigint::BigInt", name="one"), o_one, "1")
+    add(F(trait="num_traits::Zero", self_ty="bigint::BigInt", name="set_zero"), o_set_zero, "a := 0", "arg1")
+    add(F(trait="core::default::Default", self_ty="bigint::BigInt", name="default"), o_zero, "0")
+    add(F(trait="core::cmp::Ord", self_ty="bigint::BigInt", name="cmp"), o_cmp, "numerical order")
+    add(F(trait="core::cmp::PartialEq", self_ty="bigint::BigInt", name="eq"), o_eq, "numerical equality")
+    add(F(suffix="bigint::BigInt::to_biguint"), o_to_biguint, "Some(|a|) iff a >= 0")
+    add(F(trait="biguint::ToBigUint", self_ty="bigint::BigInt", name="to_biguint"), o_to_biguint, "Some(|a|) iff a >= 0")
+    add(F(trait="bigint::ToBigInt", self_ty="biguint::BigUint", name="to_bigint"), o_some_value, "Some(a)")
+    add(F(trait="bigint::ToBigInt", self_ty="bigint::BigInt", name="to_bigint"), o_some_value, "Some(a)")
+    add(F(trait="biguint::ToBigUint", self_ty="biguint::BigUint", name="to_biguint"), o_some_value, "Some(a)")
+    add([b for b in F(trait="core::convert::From", self_ty="bigint::BigInt", name="from") if b.trait_args == ["biguint::BigUint"]], o_from_biguint_value, "value preserved")
+    add(F(trait="num_integer::Integer", self_ty="bigint::BigInt", name="inc"), o_inc, "a + 1", "arg1")
+    add(F(trait="num_integer::Integer", self_ty="bigint::BigInt", name="dec"), o_dec, "a - 1", "arg1")
+    add(F(trait="num_integer::Integer", self_ty="bigint::BigInt", name="gcd"), o_gcdlike("gcd"), "gcd(|a|,|b|) >= 0")
+    add(F(trait="num_integer::Integer", self_ty="bigint::BigInt", name="lcm"), o_gcdlike("lcm"), "lcm(|a|,|b|) >= 0")
+    add(F(trait="num_integer::Integer", self_ty="bigint::BigInt", name="is_multiple_of"), o_is_multiple_of, "b == 0 ? a == 0 : b | a")
+    add(F(trait="num_integer::Integer", self_ty="biguint::BigUint", name="is_multiple_of"), o_is_multiple_of, "b == 0 ? a == 0 : b | a")
+    add(F(trait="num_integer::Integer", self_ty="bigint::BigInt", name="next_multiple_of"), o_next_multiple_of, "next multiple")
+    add(F(trait="num_integer::Integer", self_ty="bigint::BigInt", name="prev_multiple_of"), o_prev_multiple_of, "previous multiple")
+    return out
+
+
+def power_targets(facts):
+    out = []
+    for b in facts.find(suffix="bigint::power::powsign"):
+        out.append((b, o_powsign, "return", "powsign table"))
+    for b in facts.bodies:
+        if b.trait == "num_traits::Pow" and b.self_ty in ("bigint::BigInt", "&bigint::BigInt") and b.name == "pow":
+            out.append((b, o_pow, "return", "powsign(s,e) * |a|^e"))
+    return out
+
+
+def modular_targets(facts):
+    out = []
+    for b in facts.find(suffix="bigint::power::modpow"):
+        out.append((b, o_modpow, "return", "floor-mod representative of b^e mod m"))
+    for b in facts.find(suffix="bigint::BigInt::modinv"):
+        out.append((b, o_modinv, "return", "floor-mod representative of the inverse"))
+    return out
+
+
+def root_targets(facts):
+    out = []
+    for nm, deg in (("nth_root", True), ("sqrt", False), ("cbrt", False)):
+        for b in facts.find(trait="num_integer::Roots", self_ty="bigint::BigInt", name=nm):
+            out.append((b, o_root(nm, deg), "return", "sign(a) * root(|a|)"))
+    return out
+
+
+def check_helpers(ctx, res):
+    run_targets(ctx, res, helper_targets, "R5-helper", 30, "R5: Sign negation/multiplication tables, Neg, Not, abs, signum, is_positive/negative, abs_sub, sign, magnitude, into_parts, zero/one/default, set_zero, Ord, PartialEq, to_biguint/to_bigint gates, From<BigUint>, inc/dec, gcd/lcm sign, is_multiple_of, next/prev_multiple_of equal their definitions in every abstract case")
+
+
+def check_powers(ctx, res):
+    run_targets(ctx, res, power_targets, "R5-pow-sign", 20, "R5: powsign table and BigInt::pow = powsign(sign, e) * |a|^e for all exponent types and val/ref forms")
+
+
+def check_modular(ctx, res):
+    run_targets(ctx, res, modular_targets, "R5-modular-sign", 2, "R5: BigInt::modpow / modinv place the unsigned residue as the floor-mod representative in all sign cases, including residue 0; guards panic")
+
+
+def check_roots(ctx, res):
+    run_targets(ctx, res, root_targets, "R5-root-sign", 3, "R5: BigInt roots = sign(a) * root(|a|); even root / sqrt of a negative panics")
